@@ -653,7 +653,11 @@ class FnTranslator:
                 st = u.resolve(("named", self.impl, []))
                 env["self"] = st
                 params.append(("self", st))
-            elif self.impl in u.fi.tuple_structs and u.resolve(("named", self.impl, []))[0] != "opaque":
+            elif self.impl in u.fi.tuple_structs and (u.resolve(("named", self.impl, []))[0] != "opaque"
+                    # (round 10, b8) a listed newtype over an opaque component that has declared methods
+                    # (`LdkWriterWriteAdaptor<W>(&mut W)` with `W.write_all`): `self` is that component
+                    or ((u.open_tuple_structs is None or self.impl in u.open_tuple_structs)
+                        and any(k.startswith(u.resolve(("named", self.impl, []))[1] + ".") for k in u.externals))):
                 # (b1617, round 9) `&mut self` of a tuple struct listed under tuple_structs: `self` is the tuple / the
                 # component itself; writes go through `self.0…` places and the new `self` is returned like a struct's
                 st = u.resolve(("named", self.impl, []))
